@@ -456,6 +456,7 @@ class WakerEnd:
         self.cap = cap
         self.peer = None
         self.closed = False
+        self.blocking = True  # like a real socket until setblocking(False)
         self.obs = obs
 
     def fileno(self):
@@ -464,6 +465,7 @@ class WakerEnd:
     def setblocking(self, flag):
         if self.closed:
             raise OSError(errno.EBADF, os.strerror(errno.EBADF))
+        self.blocking = bool(flag)
 
     def send(self, data):
         self.sched.yield_("waker.send")
@@ -473,6 +475,18 @@ class WakerEnd:
         if p.closed:
             raise BrokenPipeError(errno.EPIPE, os.strerror(errno.EPIPE))
         room = p.cap - len(p.buf)
+        if room <= 0 and self.blocking:
+            # a blocking socket waits for buffer space: only a recv() on the other end
+            # (or its close) lets this thread go on
+            if self.obs is not None:
+                self.obs("waker.send_blocks", 0)
+            self.sched.block(lambda: len(p.buf) < p.cap or p.closed or self.closed,
+                             "waker.send.block")
+            if self.closed:
+                raise OSError(errno.EBADF, os.strerror(errno.EBADF))
+            if p.closed:
+                raise BrokenPipeError(errno.EPIPE, os.strerror(errno.EPIPE))
+            room = p.cap - len(p.buf)
         if room <= 0:
             if self.obs is not None:
                 self.obs("waker.full", 0)
@@ -485,6 +499,11 @@ class WakerEnd:
         self.sched.yield_("waker.recv")
         if self.closed:
             raise OSError(errno.EBADF, os.strerror(errno.EBADF))
+        if not self.buf and self.blocking and not self.peer.closed:
+            self.sched.block(lambda: bool(self.buf) or self.peer.closed or self.closed,
+                             "waker.recv.block")
+            if self.closed:
+                raise OSError(errno.EBADF, os.strerror(errno.EBADF))
         if not self.buf:
             if self.peer.closed:
                 return b""
